@@ -76,6 +76,20 @@ if res["patch_applies"]:
     rc, out = sh("cargo test --workspace --lib --bins --tests --no-fail-fast --offline 2>&1 | grep -E '^test .* FAILED|^test result|could not compile|^error' ")
     failed = re.findall(r"^test (\S+) \.\.\. FAILED", out, re.M)
     totals = summarize(out)
+    # a test other than the baseline's always-failing one: timing-dependent tests of the baseline (e.g.
+    # rsp_ql_multi_window_integration, which sleeps 2 s) fail now and then on a loaded machine, with or without the
+    # change; re-run such a test alone and count it as flaky only if it then passes twice
+    flaky = []
+    for t in [x for x in failed if x != "rsp_ql_dstream_semantics"]:
+        ok2 = True
+        for _ in range(2):
+            rc2, out2 = sh("cargo test --workspace --lib --bins --tests --offline %s 2>&1 | grep -E '^test .*%s' " % (t, t))
+            if "FAILED" in out2 or "ok" not in out2:
+                ok2 = False
+        if ok2:
+            flaky.append(t)
+    failed = [x for x in failed if x not in flaky]
+    res["flaky_rerun_passed"] = flaky
     res["suite_patched"] = {"failed_tests": failed, "passed": sum(int(r[1]) for r in totals), "n_failed": sum(int(r[2]) for r in totals),
                             "compile_error": "could not compile" in out,
                             "ok": (not ("could not compile" in out)) and set(failed) <= {"rsp_ql_dstream_semantics"} and len(totals) > 10}
